@@ -663,10 +663,13 @@ class Daemon(object):
         if not force:
             if hasattr(obj_or_class, "_pyroId") and obj_or_class._pyroId != "":  # check for empty string is needed for Cython
                 pyro_id = obj_or_class._pyroId
-                if pyro_id and self.objectsById.get(pyro_id) is obj_or_class:
+                if pyro_id and self._registeredObject(pyro_id) is obj_or_class:
                     raise errors.DaemonError("object or class already has a Pyro id")
             if objectId in self.objectsById:
                 raise errors.DaemonError("an object or class is already registered with that id")
+        displaced = self._registeredObject(objectId)
+        if displaced is not None and displaced is not obj_or_class:
+            self._removePyroMarks(displaced, objectId)   # (forced) the previous holder of this id is no longer registered
         # set some pyro attributes
         obj_or_class._pyroId = objectId
         obj_or_class._pyroDaemon = self
@@ -678,9 +681,40 @@ class Daemon(object):
             else:
                 ser.register_type_replacement(type(obj_or_class), _pyro_obj_to_auto_proxy)
         # register the object/class in the mapping
-        self.objectsById[obj_or_class._pyroId] = obj_or_class if not weak else weakref.ref(obj_or_class)
-        if weak: weakref.finalize(obj_or_class,self.unregister,objectId)
+        if weak:
+            ref = weakref.ref(obj_or_class)
+            self.objectsById[objectId] = ref
+            weakref.finalize(obj_or_class, self._unregisterDeadWeakref, objectId, ref)
+        else:
+            self.objectsById[objectId] = obj_or_class
         return self.uriFor(objectId)
+
+    def _registeredObject(self, objectId):
+        """the object or class currently registered under the id (None if there is none, or it was weak and is gone)"""
+        entry = self.objectsById.get(objectId)
+        if isinstance(entry, weakref.ref):
+            entry = entry()
+        return entry
+
+    def _isRegistered(self, obj_or_class):
+        """is this the object/class registered under the id it carries (or an instance of the class registered under it)"""
+        registered = self._registeredObject(getattr(obj_or_class, "_pyroId", None))
+        if registered is None:
+            return False
+        return registered is obj_or_class or (inspect.isclass(registered) and isinstance(obj_or_class, registered))
+
+    def _unregisterDeadWeakref(self, objectId, ref):
+        if self.objectsById.get(objectId) is ref:   # the id may have been given to another object in the meantime
+            del self.objectsById[objectId]
+
+    @staticmethod
+    def _removePyroMarks(obj_or_class, objectId):
+        if getattr(obj_or_class, "_pyroId", None) == objectId:
+            for mark in ("_pyroId", "_pyroDaemon"):
+                try:
+                    delattr(obj_or_class, mark)
+                except AttributeError:
+                    pass
 
     def unregister(self, objectOrId):
         """
@@ -698,11 +732,15 @@ class Daemon(object):
             objectOrId = None
         if objectId == core.DAEMON_NAME:
             return
+        registered = self._registeredObject(objectId)
+        if objectOrId is not None and registered is not objectOrId:
+            # this object is not (or no longer) the one registered under its id: only its own marks go
+            self._removePyroMarks(objectOrId, objectId)
+            return
         if objectId in self.objectsById:
             del self.objectsById[objectId]
             if objectOrId is not None:
-                del objectOrId._pyroId
-                del objectOrId._pyroDaemon
+                self._removePyroMarks(objectOrId, objectId)
                 # Don't remove the custom type serializer because there may be
                 # other registered objects of the same type still depending on it.
 
@@ -717,8 +755,9 @@ class Daemon(object):
         return an URI for the internal address.
         """
         if not isinstance(objectOrId, str):
-            objectOrId = getattr(objectOrId, "_pyroId", None)
-            if objectOrId is None or objectOrId not in self.objectsById:
+            obj = objectOrId
+            objectOrId = getattr(obj, "_pyroId", None)
+            if objectOrId is None or not self._isRegistered(obj):
                 raise errors.DaemonError("object isn't registered in this daemon")
         if nat:
             loc = self.natLocationStr or self.locationStr
@@ -873,8 +912,9 @@ serializers.SerializerBase.register_class_to_dict(Daemon, serializers.serialize_
 def _pyro_obj_to_auto_proxy(obj: Any) -> Any:
     """reduce function that automatically replaces Pyro objects by a Proxy"""
     daemon = getattr(obj, "_pyroDaemon", None)
-    if daemon:
-        # only return a proxy if the object is a registered pyro object
+    if daemon and daemon._isRegistered(obj):
+        # only return a proxy if the object is a registered pyro object (it can still carry
+        # the marks of a registration that was removed by id, or taken over by another object)
         return daemon.proxyFor(obj)
     return obj
 
